@@ -50,7 +50,7 @@ REGISTRY = dict(
 TIERS = {
     "quick": dict(lists=100, a=["small"], b=["quick"], refines=None),
     "thorough": dict(lists=1500, a=["thorough-backend", "thorough-cli", "thorough-triples"],
-                     b=["thorough-backend", "thorough-cli", "thorough-triples"], refines="thorough-backend"),
+                     b=["thorough-backend", "thorough-cli", "thorough-triples"], refines="thorough-refines"),
 }
 
 CFG_A = """SPECIFICATION Spec
